@@ -75,6 +75,27 @@ def do_weave(specdir, mod, scratch, stack):
         path = os.path.join(REPO, w['file'])
         if not os.path.exists(path):
             raise Undecided('weave: %s does not exist' % path)
+        if w.get('replace_body'):
+            # asm-bodied helper: the body (which goto-cc would silently drop) is replaced by a call to its trusted contract
+            # (extraction change (d) of DESIGN.md 1.4); everything else in the file is copied verbatim
+            text = open(path).read()
+            for fn, newbody in w['replace_body'].items():
+                m = re.search(r'\b%s\s*\([^)]*\)\s*\{' % re.escape(fn), text)
+                if not m:
+                    raise Undecided('weave: %s not found in %s' % (fn, w['file']))
+                i, d = m.end(), 1
+                while d:
+                    c = text[i]
+                    d += (c == '{') - (c == '}')
+                    i += 1
+                if 'asm' not in text[m.end():i]:
+                    raise Undecided('weave: body of %s is no longer inline assembly - contract replacement refused' % fn)
+                text = text[:m.end()] + ' /*<V: asm body replaced by trusted contract*/ ' + newbody + ' }' + text[i:]
+                census[fn] = dict(file=w['file'], accesses=0, calls=0, returns=0, loops=0, trusted_contract=True)
+            out = os.path.join(scratch, 'woven', w['file'])
+            os.makedirs(os.path.dirname(out), exist_ok=True)
+            open(out, 'w').write(text)
+            continue
         loops = None
         if w.get('loops'):
             loops = json.load(open(os.path.join(specdir, w['loops'])))
